@@ -356,6 +356,7 @@ func checkC08(p *Prog, r *Report) {
 	ruleSides(p, r, "R-SIDE", "C08", map[string]bool{"panos": true, "nsx": true}, 25)
 	ruleRegexpConsts(p, r, "R-RX", "C08", 1)
 	ruleIdentityFirst(p, r, "R-IDF", "C08", 16)
+	ruleFreshTestedAgainstUsed(p, r, "R08.f2")
 	ruleCaseFolding(p, r, "R-FOLD", "C08", map[string]bool{"cisco": true, "asa": true, "ios": true, "panos": true, "nsx": true, "linux": true})
 	r.rule("R08.c", "Emission discipline (Cisco): every call of the emitting helpers (addChange, addToplevel, addCmd, addCmds, delCmds) in package cisco lies at a function+site whose controlling conditions are audited rows of tables/guards.tsv (compared by R08.g): which command is written again, what is removed first, when a mode is left.")
 	ruleEmitDiscipline(p, r, "R08.c", "C08", "cisco", []string{"(*cisco.State).addChange", "(*cisco.State).addToplevel", "(*cisco.State).addCmd", "(*cisco.State).addCmds", "(*cisco.State).delCmds"}, 33)
